@@ -406,7 +406,18 @@ pub fn run_op(ctx: &mut Ctx, op: &str) {
                 } else {
                     let cap = cap_threshold(&c).unwrap_or(0);
                     let out = format!("ok {} | {} | {} | {}", cap, list(ids), list(moves), list(rewound));
-                    let v = if valid == Validity::Valid { oracle(&c, ids, moves, rewound) } else { None };
+                    let mut v = if valid == Validity::Valid { oracle(&c, ids, moves, rewound) } else { None };
+                    // cross-validation of the array-based reference used on the large cases: where it meets no
+                    // tie it must agree with the implementation (and, through the driver, with the Lean model)
+                    if valid == Validity::Valid && v.is_none() {
+                        if let Some((i2, m2, r2)) = reference(&c) {
+                            if &i2 != ids || &m2 != moves || &r2 != rewound {
+                                v = Some(("fm-differs-from-reference", format!("reference run: {} | {} | {}", list(&i2), list(&m2), list(&r2))));
+                            } else {
+                                ctx.count("reference:agrees-on-tie-free-case");
+                            }
+                        }
+                    }
                     let nt = valid == Validity::Valid
                         && c.ids.len() >= 2
                         && c.rows.iter().any(|r| !r.is_empty())
@@ -481,8 +492,6 @@ fn run_reuse(ctx: &mut Ctx, op: &str) {
         return;
     };
     let valid = validity(&c2) == Validity::Valid;
-    let fresh1 = run_impl(&c2);
-    let fresh2 = run_impl(&c2);
     let reused = exec(&c2, Some(&c1), None, None);
     let line = |r: &Ran| match r {
         Ran::Ok { ids, moves, rewound } => {
@@ -496,7 +505,7 @@ fn run_reuse(ctx: &mut Ctx, op: &str) {
         Ran::Panic(m) => format!("panic {}", m),
         Ran::Hang => "hang".to_string(),
     };
-    let (l1, l2, lr) = (line(&fresh1), line(&fresh2), line(&reused));
+    let lr = line(&reused);
     let mut verdict: Option<(String, String)> = None;
     if let Ran::Ok { ids, moves, rewound } = &reused {
         if valid && !c2.ids.is_empty() {
@@ -506,13 +515,18 @@ fn run_reuse(ctx: &mut Ctx, op: &str) {
         verdict = Some(("fm-reuse-differs".into(), format!("second call of a reused value: {}", lr)));
     }
     ctx.count("reuse");
-    if l1 == l2 {
-        ctx.count("reuse:deterministic-input");
-        if lr != l1 && verdict.is_none() {
-            verdict = Some(("fm-reuse-differs".into(), format!("fresh value: {} / reused value: {}", l1, lr)));
+    // when the reference run of input 2 meets no tie, the result is independent of the hash order: the reused
+    // value must return exactly the reference result (ids and metadata), i.e. what a fresh value returns
+    let refr = if valid && !c2.ids.is_empty() { reference(&c2) } else { None };
+    match refr {
+        Some((i2, m2, r2)) => {
+            ctx.count("reuse:tie-free-input-compared-with-reference");
+            let lref = format!("ok {} | {} | {} | {}", cap_threshold(&c2).unwrap_or(0), list(&i2), list(&m2), list(&r2));
+            if lr != lref && verdict.is_none() {
+                verdict = Some(("fm-reuse-differs".into(), format!("reference (fresh): {} / reused value: {}", lref, lr)));
+            }
         }
-    } else {
-        ctx.count("reuse:hash-order-sensitive-input");
+        None => ctx.count("reuse:tie-sensitive-or-invalid-input"),
     }
     let idx = ctx.record(
         format!("fmr {} ;; {} => {}", format_op(&c1), format_op(&c2), lr),
@@ -522,6 +536,100 @@ fn run_reuse(ctx: &mut Ctx, op: &str) {
     if let Some((sig, what)) = verdict {
         ctx.fail(idx, &sig, what);
     }
+}
+
+/// Array-based reference run of the algorithm as the Lean model defines it (same selection rule:
+/// largest gain among the admissible free vertices, then smallest target weight). Returns `None`
+/// as soon as that rule leaves a choice (a tie): the implementation's answer then depends on the
+/// hash order. O(n) per move. Used where the Lean model itself is too slow (large n).
+fn reference(c: &Case) -> Option<(Vec<usize>, Vec<usize>, Vec<usize>)> {
+    let n = c.ids.len();
+    let cap = cap_threshold(c)?;
+    let mut part = c.ids.clone();
+    let mut pw = loads(&c.ws, &c.ids);
+    let mut best = cut2(&c.rows, &c.ids) / 2;
+    let (mut moves, mut rewound) = (vec![], vec![]);
+    let mut gains = vec![0i64; n];
+    let mut locked = vec![false; n];
+    let mut pass = 0usize;
+    while c.mp.map_or(true, |m| pass < m) {
+        pass += 1;
+        let old = best;
+        let mut cur = best;
+        let mut best_at: Option<usize> = None;
+        let mut bad = 0usize;
+        let mut hist: Vec<(usize, usize)> = vec![];
+        for v in 0..n {
+            locked[v] = false;
+            gains[v] = c.rows[v].iter().map(|(u, w)| if part[*u] == part[v] { -*w } else { *w }).sum();
+        }
+        let mut k = 0usize;
+        while c.mm.map_or(true, |m| k < m) {
+            let mut sel: Option<(i64, i64, usize)> = None;
+            let mut tie = false;
+            for v in 0..n {
+                if locked[v] {
+                    continue;
+                }
+                let tw = pw[1 - part[v]] + c.ws[v];
+                if cap < tw {
+                    continue;
+                }
+                match sel {
+                    None => sel = Some((gains[v], tw, v)),
+                    Some((g, t, _)) => {
+                        if gains[v] > g || (gains[v] == g && tw < t) {
+                            sel = Some((gains[v], tw, v));
+                            tie = false;
+                        } else if gains[v] == g && tw == t {
+                            tie = true;
+                        }
+                    }
+                }
+            }
+            let Some((g, _, v)) = sel else { break };
+            if tie {
+                return None;
+            }
+            if g <= 0 {
+                if bad >= c.mb {
+                    break;
+                }
+                bad += 1;
+            } else {
+                bad = 0;
+            }
+            locked[v] = true;
+            let ip = part[v];
+            part[v] = 1 - ip;
+            pw[ip] -= c.ws[v];
+            pw[1 - ip] += c.ws[v];
+            hist.push((v, ip));
+            cur -= g;
+            if cur < best {
+                best = cur;
+                best_at = Some(k);
+            }
+            for (u, w) in &c.rows[v] {
+                if !locked[*u] {
+                    gains[*u] += if part[*u] == ip { 2 * *w } else { -2 * *w };
+                }
+            }
+            k += 1;
+        }
+        let r = best_at.map_or(0, |b| b + 1);
+        moves.push(hist.len());
+        rewound.push(hist.len() - r);
+        for (v, ip) in hist.drain(r..) {
+            part[v] = ip;
+            pw[ip] += c.ws[v];
+            pw[1 - ip] -= c.ws[v];
+        }
+        if old <= best {
+            break;
+        }
+    }
+    Some((part, moves, rewound))
 }
 
 // ------------------------------------------------------------------ large cases
@@ -568,7 +676,7 @@ fn parse_big(op: &str) -> Option<Big> {
         return None;
     }
     let n: usize = t[2].parse().ok()?;
-    if n == 0 || n > 2_000_000 {
+    if n == 0 || n >= 1 << 18 {
         return None;
     }
     Some(Big {
@@ -624,6 +732,14 @@ fn build_big(b: &Big, n: usize, salt: u64) -> Option<Case> {
                 }
             }
         }
+        // comb: a spine path (even vertices) with one pendant tooth per spine vertex (odd vertices);
+        // with ids `alt` every tooth gains by joining the spine's part: one-directional pressure on the cap
+        "comb" => {
+            for v in (0..n).step_by(2) {
+                add(&mut rows, v, v + 1, 1);
+                add(&mut rows, v, v + 2, 1);
+            }
+        }
         // random graph with degree <= 4, edge weights 1..9
         "rand4" => {
             for v in 0..n {
@@ -644,7 +760,8 @@ fn build_big(b: &Big, n: usize, salt: u64) -> Option<Case> {
     let ws: Vec<i64> = match b.wkind.as_str() {
         "unit" => vec![1; n],
         "small" => (0..n).map(|_| rng.range(1, 3)).collect(),
-        "wide" => (0..n).map(|_| rng.range(1, 1_000_000_000)).collect(),
+        // pairwise distinct (low 18 bits = vertex number, n < 2^18)
+        "wide" => (0..n).map(|v| (rng.range(1, 1_000_000) << 18) + v as i64).collect(),
         _ => return None,
     };
     let ids: Vec<usize> = match b.idkind.as_str() {
@@ -736,28 +853,25 @@ fn run_big(ctx: &mut Ctx, op: &str) {
         Ran::Panic(m) => (format!("panic {}", m), Some(("panic".into(), format!("{} [{}]", m, panic_sig(m))))),
         Ran::Hang => ("hang".into(), Some(("hang".into(), format!("no result after {} s", secs)))),
     };
-    // deterministic inputs (distinct wide weights): a second run, and a fresh value when the first was
-    // reused, must give the same ids and metadata
+    // distinct wide weights: the run is (almost surely) tie-free, hence deterministic: ids and metadata must be
+    // exactly those of the reference run (this also covers object reuse: the reference sees only this input)
     if b.wkind == "wide" && verdict.is_none() {
         if let Ran::Ok { ids, moves, rewound } = &ran {
-            let again = exec(&c, None, Some(if b.threads == 1 { 3 } else { 1 }), Some(secs));
-            match again {
-                Ran::Ok { ids: i2, moves: m2, rewound: r2 } => {
+            match reference(&c) {
+                Some((i2, m2, r2)) => {
+                    ctx.count("large:compared-with-reference");
                     if &i2 != ids || &m2 != moves || &r2 != rewound {
-                        // hash order can matter only through ties; count, and flag when the first run reused a value
                         let diff = i2.iter().zip(ids).filter(|(a, b)| a != b).count();
-                        ctx.count("large:second-run-differs");
-                        if b.reuse {
-                            verdict = Some((
-                                "fm-reuse-differs".into(),
-                                format!("fresh value and reused value differ on {} ids (metadata {:?}/{:?} vs {:?}/{:?})", diff, m2, r2, moves, rewound),
-                            ));
-                        }
-                    } else {
-                        ctx.count("large:second-run-identical");
+                        verdict = Some((
+                            "fm-large-differs-from-reference".into(),
+                            format!(
+                                "{} ids differ from the tie-free reference run; metadata {:?}/{:?}, reference {:?}/{:?}",
+                                diff, moves, rewound, m2, r2
+                            ),
+                        ));
                     }
                 }
-                _ => verdict = Some(("fm-rerun-failed".into(), "second run of the same input did not return".into())),
+                None => ctx.count("large:reference-met-a-tie"),
             }
         }
     }
@@ -791,6 +905,9 @@ fn gen_large(ctx: &mut Ctx) {
         big("grid8192", 16_385 + 38, "unit", "blocks8192", Some(1.0), m, Some(1), Some(9001), 1, false, s + 3),
         big("rand4", 8_193 + 7, "wide", "random", None, m, Some(2), None, 2, true, s + 4),
         big("gridsq", 4_097, "small", "alt", Some(0.5), 3, None, None, 3, false, s + 5),
+        // the cap starts to bind after 16 500 of 18 011 one-directional moves and stays binding
+        big("comb", 36_022, "unit", "alt", Some(16_500.0 / 18_011.0), m, Some(1), Some(24_000), 2, false, s + 16),
+        big("comb", 12_289, "wide", "alt", Some(0.45), m, Some(1), None, 3, false, s + 17),
     ];
     if !ctx.quick() {
         list.extend(vec![
@@ -804,6 +921,8 @@ fn gen_large(ctx: &mut Ctx) {
             big("grid4096", 16_384 + 4096 + 1, "small", "random", Some(3.0), m, Some(2), None, 3, false, s + 13),
             big("rand4", 24_577, "unit", "alt", Some(0.3), m, Some(1), None, 16, false, s + 14),
             big("gridsq", 8_193, "unit", "blocks4096", None, 10, None, None, 1, true, s + 15),
+            big("comb", 131_077 + 1, "unit", "alt", Some(0.75), m, Some(1), Some(60_000), 16, false, s + 18),
+            big("comb", 70_001, "wide", "alt", Some(0.3), m, Some(1), Some(20_000), 2, false, s + 19),
         ]);
     }
     for b in list {
@@ -812,8 +931,8 @@ fn gen_large(ctx: &mut Ctx) {
     }
     ctx.notes.push(
         "large stream: oracle only (cut, cap, metadata in O(n+m), plus 'kept moves => cut strictly lower', and on \
-         distinct-weight inputs a second run / a fresh value must reproduce ids and metadata); the Lean model is not run \
-         (list-based, quadratic per move; outputs depend on the hash order). Every move of these runs also passes the \
+         distinct-weight inputs ids and metadata must equal an array-based reference run of the model's rules, also \
+         after object reuse); the Lean model is not run (list-based, quadratic per move; unit-weight outputs depend on the hash order). Every move of these runs also passes the \
          implementation's own debug_assert on the tracked cut."
             .into(),
     );
